@@ -16,7 +16,8 @@
                  W = {resolve: [[rq, file|null]…], fileVer: [[file, ver]…], custom: [[l, rq, ver|null]…]}
                  (requests not listed resolve to nothing / raise)
                  → {runs: [{ran: ver|null, loaderMade, defMade, fileRead, stepMade: bool, clean: bool,
-                            fresh: ver|null}…]}   (`CacheTS.Stack.session` from the initial state)
+                            fresh: ver|null}…]}   (`CacheTS.Stack.session` from the initial state; a world may carry "bad": [ver…], the versions
+                            whose content is not a mapping at the top level)
    cache.syspath {threads: [[p…]…], sched, exists: [p…], base: [p…], finish: bool}
                  → {sysPath: [p…], known: [p…] (sorted, deduplicated), done: bool}
    cache.syspathf same request; the fine-grained system `fStep` (one set operation per step; turns park before
@@ -137,8 +138,13 @@ def worldOfJson (rqs : Array Rq) (j : Json) : Except String World := do
     match (← e.getArr?).toList with
     | [l, i, v] => pure ((← jsonNat? l), (← rq (← jsonNat? i)), (← optNat v))
     | _ => .error "bad custom entry"
+  -- versions whose content has no mapping at the top level (absent field: none)
+  let bad ← match j.getObjVal? "bad" with
+    | .ok b => (← b.getArr?).toList.mapM jsonNat?
+    | .error _ => pure []
   -- falsy parents all mean "no parent": look requests up by their cache key
-  pure { resolve := fun r => ((res.find? (fun e => e.1.key == r.key)).map (·.2)).join
+  pure { mapping := fun v => !bad.contains v
+         resolve := fun r => ((res.find? (fun e => e.1.key == r.key)).map (·.2)).join
          fileVer := fun f => ((fv.find? (·.1 == f)).map (·.2)).getD 0
          custom := fun l r => ((cu.find? (fun e => e.1 == l && e.2.1.key == r.key)).map (·.2.2)).join }
 
